@@ -236,6 +236,55 @@ def dominating_block_index(d, use, pm):
     return None
 
 
+def _binds(stmt, name):
+    """does the simple statement bind name (plain / tuple / chained assignment, with-as)"""
+    if isinstance(stmt, ast.Assign):
+        return any(name in assigned_names(t) for t in stmt.targets)
+    if isinstance(stmt, ast.AnnAssign):
+        return stmt.value is not None and name in assigned_names(stmt.target)
+    if isinstance(stmt, (ast.With, ast.AsyncWith)):
+        return any(it.optional_vars is not None and name in assigned_names(it.optional_vars) for it in stmt.items) or _seq_must_define(stmt.body, name)
+    return False
+
+
+def _seq_must_define(stmts, name):
+    """every path that runs through the statement list to its end binds name (a path that leaves by return / raise / continue /
+    break does not reach the end)"""
+    for s in stmts:
+        if isinstance(s, (ast.Return, ast.Raise, ast.Continue, ast.Break)):
+            return True
+        if _must_define(s, name):
+            return True
+    return False
+
+
+def _must_define(stmt, name):
+    if isinstance(stmt, ast.If):
+        return bool(stmt.orelse) and _seq_must_define(stmt.body, name) and _seq_must_define(stmt.orelse, name)
+    return _binds(stmt, name)
+
+
+def _must_define_point(fn_node, name, use, pm):
+    """the last *compound* statement before (an enclosing statement of) use, in a block enclosing use, that binds name on every path"""
+    best = None
+    x = use if isinstance(use, ast.stmt) else enclosing_stmt(use, pm)
+    while x is not None and x is not fn_node:
+        p = pm.get(id(x))
+        if p is None:
+            break
+        for blk in _blocks(p):
+            if any(x is s for s in blk):
+                for s in blk:
+                    if s is x:
+                        break
+                    if isinstance(s, ast.If) and _must_define(s, name) and (best is None or position(s) > position(best)):
+                        best = s
+        if isinstance(p, (ast.For, ast.AsyncFor, ast.While)):
+            pass        # definitions later in the loop body can still reach around the back edge: they are positioned after `best` anyway
+        x = p
+    return best
+
+
 def reaching_definitions(fn_node, name, use, pm):
     """Definitions of name that can reach the use: not in an exclusive if-arm, and either textually
     before the use or inside a loop that also contains the use.  A definition that dominates the use (an earlier
@@ -258,12 +307,21 @@ def reaching_definitions(fn_node, name, use, pm):
         if lu & ld:
             out.append((st, val, how))
     if len(out) > 1:
+        # a compound statement that dominates the use and binds the name on every path through it (`if C: x = A  else: x = B`)
+        # kills everything before it, the parameter's incoming value included
+        kp = _must_define_point(fn_node, name, use, pm)
+        if kp is not None:
+            out = [d for d in out if not (d[2] == 'param' or (position(d[0]) < position(kp) and not any(n is d[0] for n in ast.walk(kp))))] or out
+    if len(out) > 1:
         before = [d for d in out if position(d[0]) < position(use) and d[2] in ('assign', 'for', 'unpack')
                   and isinstance(d[0], ast.stmt) and d[0] is not fn_node]
-        if before:
-            dstar = max(before, key=lambda d: position(d[0]))
-            if dominating_block_index(dstar[0], use, pm) is not None and not (
-                    isinstance(dstar[0], ast.stmt) and any(n is use for n in ast.walk(dstar[0])) and not isinstance(dstar[0], (ast.For, ast.AsyncFor))):
+        # the latest definition before the use that dominates it (a later conditional one does not hide an earlier dominating one)
+        doms = [d for d in sorted(before, key=lambda d: position(d[0]), reverse=True)
+                if dominating_block_index(d[0], use, pm) is not None and not (
+                    isinstance(d[0], ast.stmt) and any(n is use for n in ast.walk(d[0])) and not isinstance(d[0], (ast.For, ast.AsyncFor)))]
+        if doms:
+            dstar = doms[0]
+            if True:
                 loops_d = [id(x) for x in enclosing_loops(dstar[0], pm, stop=fn_node) if isinstance(x, (ast.For, ast.AsyncFor, ast.While))]
                 if isinstance(dstar[0], (ast.For, ast.AsyncFor)):
                     loops_d = [id(dstar[0])] + loops_d
